@@ -835,6 +835,7 @@ class SemantivaOrchestrator(ABC):
         from semantiva.registry import resolve_symbol
 
         classes: list[Any] = []
+        unresolved = False
         for node_def in resolved_spec:
             proc = node_def.get("processor")
 
@@ -843,13 +844,21 @@ class SemantivaOrchestrator(ABC):
             # reports configuration errors in node order exactly as an untraced run
             # does (and after pipeline_start, so that the trace is closed properly).
             proc_cls: Any = None
-            if isinstance(proc, str):
+            if unresolved:
+                # Node construction stops at the first reference that cannot be
+                # resolved; resolving later ones here could register symbols
+                # ("module:Class" auto-registration) that an untraced run never sees.
+                pass
+            elif isinstance(proc, str):
                 try:
                     proc_cls = resolve_symbol(proc)
                 except Exception:
                     proc_cls = None
+                    unresolved = True
             elif isinstance(proc, type):
                 proc_cls = proc
+            else:
+                unresolved = True
 
             classes.append(proc_cls)
 
